@@ -6,6 +6,7 @@ import gen_core as G
 import core_cmp as C
 
 LIBS = ['lib1', 'lib2']
+UNMODELLED = ['objectRemoveKey', 'mergePatch', 'prune', 'objectValues', 'mapWithKey']
 
 
 def N(x):
@@ -43,6 +44,10 @@ def gen_lib(rng, gen):
     members.append(('fix', 'bad', False, 'h', None, ('binary', 'add', ('field', ('self',), 'base'), ('object', [('fix', 'x', False, 'd', None, N(-1))]))))
     members.append(('fix', 'bad2', False, 'h', None, ('binary', 'add', ('binary', 'add', ('field', ('self',), 'base'), ('object', [('fix', 'y', False, 'd', None, N(2))])),
                                                       ('object', [('fix', 'x', False, 'd', None, N(0))]))))
+    members.append(('fix', 'layered', False, 'h', None, ('binary', 'add', ('object', [('fix', 'a', False, 'd', None, N(1)), ('fix', 'b', False, 'h', None, N(2))]),
+                                                         ('object', [('fix', 'c', False, 'd', None, N(3)), ('fix', 'd', False, 'f', None, ('sfield', 'a'))]))))
+    members.append(('fix', 'patch', False, 'h', None, ('object', [('fix', 'x', False, 'd', None, N(-5))])))
+    members.append(('fix', 'okpatch', False, 'h', None, ('object', [('fix', 'x', False, 'd', None, N(7)), ('fix', 'y', False, 'd', None, ('field', ('self',), 'x'))])))
     return ('object', members)
 
 
@@ -50,18 +55,41 @@ def gen_source(rng, gen):
     """A request source: uses library values; some fail (explicit error, deep recursion, library error)."""
     l = lib_ref(rng)
     k = rng.random()
-    if k < 0.07:
+    if k < 0.05:
         return ('array', [('field', l, 'n'), ('field', lib_ref(rng), 'arr'), ('field', l, 'shared')])
-    if k < 0.15:
+    if k < 0.24:
         which = rng.random()
         if which < 0.3:
             return ('index', ('field', l, rng.choice(['mapped', 'made'])), N(rng.randrange(0, 4)))
         if which < 0.45:
             return ('field', l, rng.choice(['mapped', 'made']))
-        if which < 0.6:
+        if which < 0.5:
             return ('std', 'length', [('field', l, rng.choice(['mapped', 'made']))])
-        if which < 0.8:
+        if which < 0.6:
             return ('field', ('field', l, rng.choice(['bad', 'bad2', 'base'])), 'x')
+        if which < 0.72:
+            # derived views of one shared layered object, in any order (caches on the shared object must not leak)
+            o = ('field', l, 'layered')
+            key = ('str', rng.choice(['a', 'b', 'c', 'd', 'zz']))
+            return rng.choice([
+                ('std', 'objectFieldsEx', [o, (rng.choice(['true', 'false']),)]),
+                ('std', 'objectRemoveKey', [o, key]),
+                ('std', 'objectFieldsEx', [('std', 'objectRemoveKey', [o, key]), ('true',)]),
+                ('binary', 'add', ('std', 'objectRemoveKey', [o, key]), ('object', [('fix', 'e', False, 'd', None, N(5))])),
+                ('std', 'mergePatch', [o, ('object', [('dyn', key, False, 'd', None, ('null',))])]),
+                ('std', 'objectHasEx', [o, key, ('true',)]),
+                ('binary', 'eq', o, ('std', 'objectRemoveKey', [o, key])),
+                ('std', 'length', [o]), o, ('std', 'prune', [o]), ('std', 'objectValues', [o]),
+                ('std', 'mapWithKey', [('func', [('k', None), ('v', None)], ('array', [V('k'), V('v')])), o]),
+                ('field', ('binary', 'add', o, ('object', [('fix', 'a', False, 'd', None, N(9))])), 'd'),
+            ])
+        if which < 0.85:
+            # both operands are shared values that earlier requests may have checked on their own
+            return rng.choice([('field', l, 'patch'), ('field', l, 'okpatch'), ('field', l, 'base'),
+                               ('binary', 'add', ('field', l, 'base'), ('field', l, 'patch')),
+                               ('field', ('binary', 'add', ('field', l, 'base'), ('field', l, 'patch')), 'x'),
+                               ('binary', 'add', ('field', l, 'base'), ('field', l, 'okpatch')),
+                               ('binary', 'add', ('binary', 'add', ('field', l, 'base'), ('field', l, 'okpatch')), ('field', l, 'patch'))])
         if which < 0.9:
             return ('field', l, rng.choice(['bad', 'bad2', 'base']))
         return ('binary', 'add', ('field', l, rng.choice(['bad', 'bad2'])), ('object', [('fix', 'x', False, 'd', None, N(rng.choice([-5, 5])))]))
@@ -203,6 +231,8 @@ def run(rep):
                     rep.disagreement('c11m:' + line + '#%d' % ri, 'request outcome differs from the model history',
                                      {'op': line, 'model_op': model_lines[h], 'request': ri, 'impl': conv_impl_item(it)[:300], 'model': mt[:300]})
                     break
+        elif not mitems and any(w in model_lines[h] for w in UNMODELLED):
+            rep.bump('history-with-unmodelled-builtin')
         elif not mitems:
             rep.disagreement('c11m:' + line, 'model rejected the history', {'op': line, 'model_op': model_lines[h], 'model': b[:200]})
     # evaluating the same thunk again returns the same outcome (incl. after failures and limit changes)
